@@ -4,6 +4,7 @@ import (
 	"context"
 	"encoding/json"
 	"fmt"
+	"iter"
 	"math/rand"
 	"os"
 	"reflect"
@@ -34,13 +35,13 @@ type BlockObs struct {
 	BA []bool `json:"ba"`
 	FA []bool `json:"fa"`
 	// C23 / C24 observations of the main query
-	Listed   int  `json:"listed"` // number of BlockStats entries for this block
-	Skipped  bool `json:"skipped"`
-	RP       int  `json:"rp"`
-	BP       int  `json:"bp"`
-	TR       int  `json:"tr"`
-	RowRead  bool `json:"rowread"`
-	USize    int  `json:"usize"`
+	Listed  int  `json:"listed"` // number of BlockStats entries for this block
+	Skipped bool `json:"skipped"`
+	RP      int  `json:"rp"`
+	BP      int  `json:"bp"`
+	TR      int  `json:"tr"`
+	RowRead bool `json:"rowread"`
+	USize   int  `json:"usize"`
 }
 
 type FileObs struct {
@@ -78,25 +79,25 @@ type Obs struct {
 	Blocks []BlockObs `json:"blocks"`
 	Files  []FileObs  `json:"files"`
 	// stats of the main query
-	Matched    int  `json:"matched"`
-	StatBlocks int  `json:"stat_blocks"`
-	StatProc   int  `json:"stat_proc"`
-	StatSkip   int  `json:"stat_skip"`
-	StatRows   int  `json:"stat_rows"`
-	StatBytes  int  `json:"stat_bytes"`
-	Unknown    int  `json:"stat_unknown"` // BlockStats entries that name no stored block
+	Matched    int    `json:"matched"`
+	StatBlocks int    `json:"stat_blocks"`
+	StatProc   int    `json:"stat_proc"`
+	StatSkip   int    `json:"stat_skip"`
+	StatRows   int    `json:"stat_rows"`
+	StatBytes  int    `json:"stat_bytes"`
+	Unknown    int    `json:"stat_unknown"` // BlockStats entries that name no stored block
 	MergeErr   string `json:"merge_err"`
-	IngestErr  int  `json:"ingest_err"` // valid batches on healthy stores that were answered with an error
-	Stdio      int  `json:"stdio"`
+	IngestErr  int    `json:"ingest_err"` // valid batches on healthy stores that were answered with an error
+	Stdio      int    `json:"stdio"`
 }
 
 // ioCtl records the DataStore calls of the main query.
 type ioCtl struct {
-	mu      sync.Mutex
-	on      bool
-	opens   map[string]int
-	closes  map[string]int
-	reads   []readRec
+	mu     sync.Mutex
+	on     bool
+	opens  map[string]int
+	closes map[string]int
+	reads  []readRec
 }
 
 type readRec struct {
@@ -129,6 +130,29 @@ type executor struct {
 	cat     *Catalog
 	seed    int64
 	scratch string
+	legacy  bool // the case in progress feeds the engines legacy ("") compression metadata
+}
+
+// legacyMeta yields uncompressed blocks the way old files describe them: Compression "" instead of "none".
+type legacyMeta struct{ bs.MetaStore }
+
+func (m legacyMeta) GetMaybeFilesForQuery(ctx context.Context, p *bs.QueryPrefilter) iter.Seq2[bs.MaybeFile, error] {
+	return func(yield func(bs.MaybeFile, error) bool) {
+		for mf, err := range m.MetaStore.GetMaybeFilesForQuery(ctx, p) {
+			if err == nil {
+				blocks := append([]bs.DataBlockMetadata(nil), mf.Metadata.DataBlocks...)
+				for i := range blocks {
+					if blocks[i].Compression == bs.CompressionNone {
+						blocks[i].Compression = ""
+					}
+				}
+				mf.Metadata.DataBlocks = blocks
+			}
+			if !yield(mf, err) {
+				return
+			}
+		}
+	}
 }
 
 func NewExecutor(cat *Catalog, seed int64, scratch string) *executor {
@@ -266,7 +290,13 @@ func (x *executor) Run(c *Case) *Obs {
 	io := &ioCtl{opens: map[string]int{}, closes: map[string]int{}}
 	data := &h.InstrData{Inner: rawData, C: io}
 	cfg := engineCfg(c)
-	eng, err := bs.NewBloomSearchEngine(cfg, rawMeta, data)
+	// the engines see the store through engMeta; the observation code below keeps reading rawMeta
+	engMeta := rawMeta
+	x.legacy = c.Dims.LegacyMeta
+	if c.Dims.LegacyMeta {
+		engMeta = legacyMeta{rawMeta}
+	}
+	eng, err := bs.NewBloomSearchEngine(cfg, engMeta, data)
 	h.Must(err, "engine config")
 	eng.Start()
 
@@ -332,7 +362,7 @@ func (x *executor) Run(c *Case) *Obs {
 	}
 
 	// a query engine (queries are independent of the ingest lifecycle)
-	qeng, err := bs.NewBloomSearchEngine(cfg, rawMeta, data)
+	qeng, err := bs.NewBloomSearchEngine(cfg, engMeta, data)
 	h.Must(err, "query engine")
 
 	if c.Merges > 0 {
@@ -344,7 +374,7 @@ func (x *executor) Run(c *Case) *Obs {
 			mcfg.RowDataCompression = []bs.CompressionType{bs.CompressionNone, bs.CompressionSnappy, bs.CompressionZstd}[rng.Intn(3)]
 			mcfg.BloomFalsePositiveRate = []float64{0.001, 0.2}[rng.Intn(2)]
 		}
-		meng, err := bs.NewBloomSearchEngine(mcfg, rawMeta, data)
+		meng, err := bs.NewBloomSearchEngine(mcfg, engMeta, data)
 		h.Must(err, "merge engine")
 		o.MergeErr = "nil"
 		for i := 0; i < c.Merges; i++ {
@@ -535,8 +565,10 @@ func clampInt(v int64) int {
 	return int(v)
 }
 
-func overlaps(off, n, eoff, esize int64) bool { return n > 0 && esize > 0 && off < eoff+esize && eoff < off+n }
-func within(off, n, eoff, esize int64) bool   { return off >= eoff && off+n <= eoff+esize }
+func overlaps(off, n, eoff, esize int64) bool {
+	return n > 0 && esize > 0 && off < eoff+esize && eoff < off+n
+}
+func within(off, n, eoff, esize int64) bool { return off >= eoff && off+n <= eoff+esize }
 
 type testStringer interface{ TestString(string) bool }
 
